@@ -2,7 +2,7 @@
    Proofs/GraphP*.v. *)
 From Coq Require Import ZArith Bool List.
 Import ListNotations.
-From Verif Require Import Model.Val Model.Graph Proofs.GraphPBase Proofs.GraphPDfs Proofs.GraphPTopo Proofs.GraphPDep Proofs.GraphPBfs Proofs.GraphPLong Proofs.GraphPEx.
+From Verif Require Import Model.Val Model.Graph Proofs.GraphPBase Proofs.GraphPDfs Proofs.GraphPTopo Proofs.GraphPDep Proofs.GraphPBfs Proofs.GraphPLong Proofs.GraphPEx Proofs.GraphPMon.
 Open Scope Z_scope.
 
 (* every graph the constructor can build is well-formed; the constructor never raises *)
@@ -149,3 +149,39 @@ Theorem C17_longest_path_zero_weight_source_refuted :
     exists p, longest_path_w w g = Ok p /\ parents_of g (hd 0 p) <> [].
 Proof. exact longest_path_zero_weight_source_refuted. Qed.
 Print Assumptions C17_longest_path_zero_weight_source_refuted.
+
+(* ---- the monitors applied to the implementation's outputs decide the statements above *)
+Theorem C17_monitor_topo : forall m l, mon (MTopo m l) = true <->
+  exists g, of_mapping m = Ok g /\ acyclic g /\ Permutation.Permutation l (nodes g) /\
+            forall u v, edge g u v -> (index_of u l < index_of v l)%nat.
+Proof. exact mon_MTopo_spec. Qed.
+Print Assumptions C17_monitor_topo.
+Theorem C17_monitor_topo_error : forall m c, mon (MTopoErr m c) = true <->
+  exists g, of_mapping m = Ok g /\ c = E_RUNTIME /\ cyclic g.
+Proof. exact mon_MTopoErr_spec. Qed.
+Print Assumptions C17_monitor_topo_error.
+Theorem C17_monitor_bfs : forall m l st, mon (MBfs m l st) = true <->
+  exists g, of_mapping m = Ok g /\ st = 0 /\ Permutation.Permutation l (nodes g) /\
+            forall u v, edge g u v -> (index_of u l < index_of v l)%nat.
+Proof. exact mon_MBfs_spec. Qed.
+Print Assumptions C17_monitor_bfs.
+Theorem C17_monitor_dfs : forall g, wf g -> forall n l, In n (nodes g) ->
+  mon_dfs g n l = true <-> NoDup l /\ forall x, In x l <-> reach g n x.
+Proof. exact mon_dfs_spec. Qed.
+Print Assumptions C17_monitor_dfs.
+Theorem C17_monitor_dependent : forall m u v tag b, mon (MDep m u v tag b) = true <->
+  exists g, of_mapping m = Ok g /\ tag = 0 /\ (b = 1 <-> reachp g u v \/ reachp g v u).
+Proof. exact mon_MDep_spec. Qed.
+Print Assumptions C17_monitor_dependent.
+(* the path-enumeration reference (graphs of <= 9 nodes); the relaxation reference used on larger graphs
+   (mon_longest_by false, MCrit) is NOT proved equivalent: partial *)
+Theorem C17_monitor_longest_partial : forall g, wf g -> forall w, (forall n, 0 <= w n) -> acyclic g -> forall p,
+  mon_longest_by true w g p = true <->
+  gpath g p /\ (forall u, ~ edge g u (hd 0 p)) /\ (forall v, ~ edge g (last p 0) v) /\
+  forall q, gpath g q -> sum_w w q <= sum_w w p.
+Proof. exact mon_longest_enum_spec. Qed.
+Print Assumptions C17_monitor_longest_partial.
+Theorem C17_monitor_depth : forall m n d, mon (MDepth m n d) = true ->
+  exists g, of_mapping m = Ok g /\ (acyclic g -> In n (nodes g) -> get_node_depth g n true = Ok d).
+Proof. exact mon_MDepth_spec. Qed.
+Print Assumptions C17_monitor_depth.
